@@ -170,6 +170,16 @@ def decodeAll (names : List N) : List (List (Nat × Option V)) → Option (Log N
 
 def decompress (c : CLog N V) : Option (Log N V) := decodeAll c.names c.entries
 
+/-- The one back-end behaviour that is modelled because it loses information: `serde_json` writes a
+non-finite float as `null` (JSON has no such number). `finite` says which values JSON can carry. -/
+def jsonValue (finite : V → Bool) (v : Option V) : Option V := v.bind fun x => if finite x then some x else none
+
+def jsonLog (finite : V → Bool) (log : Log N V) : Log N V :=
+  log.map fun st => st.map fun e => (e.1, jsonValue finite e.2)
+
+/-- `Log::to_json`. (`Log::to_cbor` is `compress`: CBOR carries every float.) -/
+def exportJson (finite : V → Bool) (log : Log N V) : CLog N V := compress (jsonLog finite log)
+
 /-- Two steps denote the same name → value map. -/
 def sameMap (a b : Step N V) : Prop := ∀ n, lookup a n = lookup b n
 
@@ -462,6 +472,19 @@ def RuleSt.parse? : Sexp → Option RuleSt
       let t ← TrigSpec.parse? t; let e ← ExtSpec.parse? e; pure { trig := t, ext := e }
   | _ => none
 
+/-- A `configure_log` script: `(r T E)` = `with`, `(many T E…)` = `with_many` (the trigger is cloned
+for every extractor), `clear` = `LogConfig::clear`. -/
+def parseRules : List Sexp → List RuleSt → Option (List RuleSt)
+  | [], acc => some acc
+  | .atom "clear" :: rest, _ => parseRules rest []
+  | .list (.atom "many" :: t :: es) :: rest, acc => do
+      let t ← TrigSpec.parse? t
+      let es ← es.mapM ExtSpec.parse?
+      parseRules rest (acc ++ es.map fun e => { trig := t, ext := e })
+  | r :: rest, acc => do
+      let r ← RuleSt.parse? r
+      parseRules rest (acc ++ [r])
+
 mutual
   def Node.parse? : Sexp → Option Node
     | .list [.atom "log"] => some .log
@@ -533,21 +556,26 @@ def logEqAsMaps (a b : Log String String) : Bool :=
 def namesNodup (s : Step String String) : Bool := (s.map (·.1)).eraseDups.length == s.length
 
 /-- Checks an implementation output `(res ok (raw …) (json …) (cbor …))` against an expected log:
-the raw log and both decoded exports must be the expected sequence of steps, as maps. -/
-def exportsMatch (want : Log String String) (implOut : Sexp) : Bool :=
+the raw log and both decoded exports must be the expected sequence of steps, as maps.
+→ (raw ok, json ok, cbor ok). -/
+def exportParts (want : Log String String) (implOut : Sexp) : Bool × Bool × Bool :=
   match implOut with
   | .list [.atom "res", .atom "ok", raw, js, cb] =>
-    match (do
-      let rawSteps ← (← tagged? "raw" raw).mapM parseStep
-      let j ← parseCLog "json" js
-      let c ← parseCLog "cbor" cb
-      let dj ← decompress j
-      let dc ← decompress c
-      pure (rawSteps, dj, dc)) with
-    | some (rawSteps, dj, dc) =>
-      rawSteps.all namesNodup && logEqAsMaps rawSteps want && logEqAsMaps dj want && logEqAsMaps dc want
-    | none => false
-  | _ => false
+    let rawOk := match (tagged? "raw" raw).bind (·.mapM parseStep) with
+      | some rawSteps => rawSteps.all namesNodup && logEqAsMaps rawSteps want
+      | none => false
+    let jOk := match (parseCLog "json" js).bind decompress with
+      | some dj => logEqAsMaps dj want
+      | none => false
+    let cOk := match (parseCLog "cbor" cb).bind decompress with
+      | some dc => logEqAsMaps dc want
+      | none => false
+    (rawOk, jOk, cOk)
+  | _ => (false, false, false)
+
+def exportsMatch (want : Log String String) (implOut : Sexp) : Bool :=
+  let p := exportParts want implOut
+  p.1 && p.2.1 && p.2.2
 
 def failSexp : Fail → Sexp
   | .err => .atom "err" | .panic => .atom "panic" | .timeout => .atom "timeout"
@@ -567,7 +595,7 @@ def handleProgram (input implOut : Sexp) : Option CaseResult := do
   | .list [.atom "lg", rulesS, treeS] =>
     let rules ← (match rulesS with
       | .atom "noconfig" => some none
-      | _ => do let rs ← (← tagged? "rules" rulesS).mapM RuleSt.parse?; pure (some rs))
+      | _ => do let rs ← parseRules (← tagged? "rules" rulesS) []; pure (some rs))
     let prog ← Nodes.parseList? (← tagged? "tree" treeS)
     match runProgram 100000 rules prog with
     | .ok s =>
@@ -631,6 +659,30 @@ def handleWitness (input implOut : Sexp) : Option CaseResult := do
       pure { model := .list [.atom "res", .atom st], holds := true, cls := "-" }
     | _ => none
   | _ => none
+
+/-- Is the float written `x` + 16 hex digits finite? -/
+def finiteAtom (v : String) : Bool :=
+  match bits? (.atom v) with
+  | some b => ((b >>> 52) &&& 0x7ff) != 0x7ff
+  | none => true
+
+/-- Site `logger-float*`: input `(fl v…)`; the configuration is `loop n { Y := v[iteration]; Logger }`
+with the rule (always, IdLens<Y>): step i must be {Iterations: i, c15::Y: vᵢ} with vᵢ bit-exact. -/
+def handleFloats (input implOut : Sexp) : Option CaseResult := do
+  let vs ← tagged? "fl" input
+  let vals ← vs.mapM atom?
+  let execs : List (List (Rule String String) × Option String) :=
+    (List.range vals.length).zip vals |>.map fun (i, v) => ([{ trig := .fire, name := "c15::Y", value := some v }], some (toString i))
+  match runExecs iterName execs [] with
+  | .ok log =>
+    let model := Sexp.list [.atom "res", .atom "ok", .list (.atom "raw" :: log.map stepSexp),
+      clogSexp "json" (exportJson finiteAtom log), clogSexp "cbor" (compress log)]
+    let want := execs.filterMap fun e => specStepO iterName e.1 e.2
+    let p := exportParts want implOut
+    let holds := p.1 && p.2.1 && p.2.2
+    let cls := if holds then "-" else if p.1 && p.2.2 && !p.2.1 then "json-lossy" else "wrong-value"
+    pure { model, holds, cls }
+  | .error _ => none
 
 /-! ### Configuration export cases -/
 
